@@ -19,6 +19,10 @@ DOCS = ["Hi **Markdown**", "# T\n\npara ~~del~~ text[^1]\n\n[^1]: note\n", "a | 
         "H~2~O ^sup^ ==m== ^^ins^^ $m$\n", "term\n: def\n\n*[HTML]: Hyper\nHTML\n",
         # content whose conversion depends on its last characters (unclosed fence / HTML block keep trailing blank lines) and on plugin order
         "`\\n` and C:\\new \\nu \\t tab\\\\n", "a\\nb", "```\nopen fence\n\n\n", "<pre>\n\nkeep\n\n\n", "~~~\n\n", "text\n\n\n\n", "see https://example.com/page for details and ~~x~~\n", "a\r\nb\rc\n", "\n\nlead", "trail   \n\n"]
+CHANNEL_DOCS = ["a\x00b\n", "\x00", "---\nkey: v\n---\n", "---\ntitle: Home page\nauthor: me\n---\n\n# h\n\nbody\n", "---\nlayout: post\n---\nbody", "+++\ntitle = 1\n+++\n\ntext\n",
+                "---\n---\ntext\n", "...\nkey: v\n...\n", "#!/usr/bin/env markdown\ntext\n", "% title\n% author\n\nbody\n", "<!-- header -->\ntext\n", "\ufeff\ufeffx\n", "x\ufeffy\n", "text\x1a", "\x1atext\n",
+                "\x0c\npage\x0c\n", "a\u2028b\u2029c\x85d\n", "a\r\r\nb\n", "a\n\rb\r", "\r\n\r\nlead\r\n", "  lead blanks\n", "\tlead tab\n", "trail blanks   ", "trail nl\n\n\n", "Title: x\nDate: y\n\nbody\n", "\x1b[1mbold\x1b[0m\n",
+                "\x7f\x08x\n", "\ud7ff\ue000\ufffd\uffff\n", "\U0001f600 \U00010000\n", "<?xml version=\"1.0\"?>\ntext\n", "<!DOCTYPE html>\ntext\n", "[//]: # (comment)\ntext\n", "{% raw %}x{% endraw %}\n", "{{ var }}\n", "@import x\n"]
 PLUGIN_SETS = [None, ["url"], ["table"], ["strikethrough", "url"], ["footnotes"], ["task_lists", "def_list"],
                ["math", "ruby", "spoiler"], ["abbr", "mark", "insert", "superscript", "subscript"], ["speedup"],
                # order and repetition are part of the configuration (plugins register rules in the order given)
@@ -99,6 +103,13 @@ def cases(ctx, big=False):
     for pad in range(0, 4):
         out.append(dict(escape=False, hardwrap=False, renderer="html", plugins=None, chan="-f", outfile=(pad % 2 == 1), doc="p" * pad + "\n\n" + big))
     out.append(dict(escape=False, hardwrap=False, renderer="html", plugins=None, chan="stdin", outfile=False, doc=big))
+    # content that tools in front of a converter like to treat specially (front matter, NUL, byte-order marks, control characters, shebang /
+    # comment headers, odd line ends): every channel must hand it to the library as it is
+    for j, doc in enumerate(CHANNEL_DOCS):
+        for chan in ("-f", "stdin", "-m"):
+            if chan == "-m" and ("\x00" in doc or doc.startswith("-")):
+                continue
+            out.append(dict(escape=bool(j % 2), hardwrap=False, renderer=RENDERERS[j % 3] if j % 4 == 3 else "html", plugins=PLUGIN_SETS[j % 4], chan=chan, outfile=(j % 5 == 4), doc=doc))
     for doc in ("---", "-x", "- item\n- two", "-", "--help me", "@file"):
         out.append(dict(escape=True, hardwrap=False, renderer="html", plugins=None, chan="-m", outfile=False, doc=doc))
     return out
